@@ -3,6 +3,7 @@ import OmbottModel.Drv.Qs
 import OmbottModel.Drv.StaticFile
 import OmbottModel.Drv.Headers
 import OmbottModel.Drv.Cookies
+import OmbottModel.Drv.ErrorPage
 /-! Dispatch of a protocol line to the area handlers.  `State` holds the few models that are
 driven as state machines across lines (router, multipart feed, header store). -/
 namespace Drv
@@ -25,6 +26,7 @@ def step (st : State) (line : String) : State × String :=
     | "static" => pure? (StaticFile.handle rest)
     | "hdr" => pure? (Headers.handle rest)
     | "cookie" => pure? (Cookies.handle rest)
+    | "errorpage" => pure? (ErrorPage.handle rest)
     | _ => (st, "bad-op")
 
 end Drv
